@@ -38,6 +38,12 @@ import (
 // max(entry level, level taken locally): every write must be exclusive and every read under some lock, except for a
 // listed set of exceptions.
 //
+// Aliases: a local variable assigned from an expression that mentions an *alias field* (-alias, default `pool`: the map,
+// the per-account lists reached through it, the slices `list.Get()` hands out — they share the lists' backing arrays)
+// or another such local is "derived from guarded data" (by name, flow-insensitive inside one function; `len(..)` / `cap(..)`
+// of it is a copied scalar). Every later mention of such a local is listed as `read <field>~` at the lock level held
+// *there*: collecting the lists under the lock, unlocking and then walking them is a read of guarded memory with no lock.
+//
 //	-reuse M   do not emit the Eff/Fn structures, import module M and use its (for the synthetic self-test table)
 func init() { register("poollocks", cmdPoolLocks) }
 
@@ -49,7 +55,9 @@ type plEff struct {
 type plScan struct {
 	guard map[string]bool
 	funcs map[string]bool
-	plain map[string]bool // package-level functions (not methods) of the scanned files
+	plain map[string]bool   // package-level functions (not methods) of the scanned files
+	alias map[string]bool   // guarded fields whose values alias guarded memory (maps, lists, slices)
+	taint map[string]string // local variable -> the alias field it was derived from
 	effs  []plEff
 	seen  map[string]bool
 }
@@ -92,6 +100,43 @@ func (s *plScan) guardedRoot(e ast.Expr) string {
 		default:
 			return ""
 		}
+	}
+}
+
+// derivedFrom: the alias field an expression is derived from ("" = none): it mentions mp.<alias field> or a tainted
+// local; len(..) and cap(..) are copied scalars.
+func (s *plScan) derivedFrom(e ast.Expr) string {
+	if e == nil {
+		return ""
+	}
+	if c, ok := e.(*ast.CallExpr); ok {
+		if id, ok := c.Fun.(*ast.Ident); ok && (id.Name == "len" || id.Name == "cap") {
+			return ""
+		}
+	}
+	out := ""
+	ast.Inspect(e, func(x ast.Node) bool {
+		switch v := x.(type) {
+		case *ast.FuncLit:
+			return false
+		case *ast.SelectorExpr:
+			if isPool(v.X) && s.alias[v.Sel.Name] {
+				out = v.Sel.Name
+				return false
+			}
+		case *ast.Ident:
+			if f := s.taint[v.Name]; f != "" {
+				out = f
+			}
+		}
+		return out == ""
+	})
+	return out
+}
+
+func (s *plScan) markDerived(lhs ast.Expr, field string) {
+	if id, ok := lhs.(*ast.Ident); ok && id.Name != "_" && field != "" {
+		s.taint[id.Name] = field
 	}
 }
 
@@ -155,6 +200,10 @@ func (s *plScan) exprEffects(n ast.Node, lock int, skip map[ast.Expr]bool) {
 			if skip[v] {
 				return false
 			}
+		case *ast.Ident:
+			if f := s.taint[v.Name]; f != "" {
+				s.add("read", f+"~", lock)
+			}
 		}
 		return true
 	})
@@ -211,6 +260,15 @@ func (s *plScan) stmt(st ast.Stmt, lock int) int {
 		for _, r := range v.Rhs {
 			s.exprEffects(r, lock, skip)
 		}
+		for i, l := range v.Lhs {
+			var r ast.Expr
+			if len(v.Rhs) == len(v.Lhs) {
+				r = v.Rhs[i]
+			} else if len(v.Rhs) == 1 {
+				r = v.Rhs[0]
+			}
+			s.markDerived(l, s.derivedFrom(r))
+		}
 	case *ast.IncDecStmt:
 		if f := s.guardedRoot(v.X); f != "" {
 			s.add("write", f, lock)
@@ -241,6 +299,9 @@ func (s *plScan) stmt(st ast.Stmt, lock int) int {
 		return minInt(lock, s.block(v.Body.List, lock))
 	case *ast.RangeStmt:
 		s.exprEffects(v.X, lock, skip)
+		if f := s.derivedFrom(v.X); f != "" && v.Value != nil {
+			s.markDerived(v.Value, f) // the elements (lists, transactions slices); a map key is a copied scalar
+		}
 		return minInt(lock, s.block(v.Body.List, lock))
 	case *ast.SwitchStmt:
 		if v.Init != nil {
@@ -284,6 +345,15 @@ func (s *plScan) stmt(st ast.Stmt, lock int) int {
 		}
 	case *ast.DeclStmt:
 		s.exprEffects(v.Decl, lock, skip)
+		if gd, ok := v.Decl.(*ast.GenDecl); ok {
+			for _, sp := range gd.Specs {
+				if vs, ok := sp.(*ast.ValueSpec); ok && len(vs.Values) == len(vs.Names) {
+					for i, nm := range vs.Names {
+						s.markDerived(nm, s.derivedFrom(vs.Values[i]))
+					}
+				}
+			}
+		}
 	case *ast.SendStmt:
 		s.exprEffects(v.Chan, lock, skip)
 		s.exprEffects(v.Value, lock, skip)
@@ -296,6 +366,7 @@ func cmdPoolLocks(args []string) error {
 	out := fs.String("o", "", "output .lean file")
 	repo := fs.String("repo", "/repo", "repository root")
 	ns := fs.String("ns", "Aergo.Gen.PoolLocks", "Lean namespace")
+	alias := fs.String("alias", "pool", "guarded fields whose values alias guarded memory (locals derived from them are tracked)")
 	reuse := fs.String("reuse", "", "import this module for the Eff/Fn structures instead of emitting them")
 	guard := fs.String("guard", "pool,length,orphan,cache,bestBlockID,bestBlockInfo,stateDB,bestChainIdHash,acceptChainIdHash", "guarded fields of the pool value")
 	if err := fs.Parse(args); err != nil {
@@ -396,7 +467,11 @@ func cmdPoolLocks(args []string) error {
 	b.WriteString("def fns : List Fn := [\n")
 	n := 0
 	for _, f := range fns {
-		sc := &plScan{guard: g, funcs: funcs, plain: plain, seen: map[string]bool{}}
+		al := map[string]bool{}
+		for _, f := range strings.Split(*alias, ",") {
+			al[f] = true
+		}
+		sc := &plScan{guard: g, funcs: funcs, plain: plain, seen: map[string]bool{}, alias: al, taint: map[string]string{}}
 		sc.block(f.body.List, 0)
 		if len(sc.effs) == 0 {
 			continue
